@@ -4,6 +4,7 @@ import (
 	"encoding/json"
 	"strconv"
 	"strings"
+	"unicode"
 )
 
 func funcToLowerVec(chunk []KVPair, args []Expression, ctx *ExecuteCtx) ([]any, error) {
@@ -16,7 +17,7 @@ func funcToLowerVec(chunk []KVPair, args []Expression, ctx *ExecuteCtx) ([]any, 
 	)
 	for i := 0; i < len(chunk); i++ {
 		arg := toString(rarg[i])
-		ret[i] = strings.ToLower(arg)
+		ret[i] = caseMapped(arg, strings.ToLower, unicode.ToLower)
 	}
 	return ret, nil
 }
@@ -31,7 +32,7 @@ func funcToUpperVec(chunk []KVPair, args []Expression, ctx *ExecuteCtx) ([]any, 
 	)
 	for i := 0; i < len(chunk); i++ {
 		arg := toString(rarg[i])
-		ret[i] = strings.ToUpper(arg)
+		ret[i] = caseMapped(arg, strings.ToUpper, unicode.ToUpper)
 	}
 	return ret, nil
 }
